@@ -118,7 +118,7 @@ func init() {
 		Trusted:     []string{"go/types, go/cfg (x/tools v0.50.0)", "go-jose/v4", "stdlib bytes/strings/encoding"},
 		Level:       "Sound static check of the structural necessary conditions: one signature, allow-listed algorithm, key selected by the stated rules, verified payload identical to the parsed payload, on every path of every token decoder and key set (closed-world tables for decoders and key sets). Cryptographic validity itself is go-jose's.",
 		Note:        "Trusted: go/types+go/cfg, go-jose ParseSigned/Verify, stdlib. A new ParseToken caller or KeySet implementation fails the table rule until an obligation is written for it.",
-		Technique:   "static analysis: must-facts dataflow over go/cfg + who-may-call and interface-implementer tables from go/types",
+		Technique:   "static analysis: must-facts dataflow over go/cfg + who-may-call, who-may-write and interface-implementer tables from go/types",
 		Rules:       []string{"E1"},
 		Run: func(c *Ctx) {
 			RunE1(c, "C02", obs)
